@@ -144,7 +144,8 @@ PROPS = {
     "C12": dict(
         domain="world", module="Props.C12",
         theorems=["C12_events_replay_membership", "C12_replay_composes", "C12_insert_reports",
-                  "C12_entity_deletion_reports", "C12_modified_exactly_on_mutable_access", "C12_read_only_is_silent"],
+                  "C12_entity_deletion_reports", "C12_modified_exactly_on_mutable_access", "C12_read_only_is_silent",
+                  "C12_events_of_join_accesses"],
         required="spec",
         nontrivial="a reader reads at least one insertion, one removal and one modification event",
     ),
